@@ -139,6 +139,7 @@ class Analyzer:
         self.sites: T.Dict[int, Site] = {}
         self.extra: T.Dict[T.Tuple[str, str], T.Tuple[ast.AST, str]] = {}
         self.rounds = 0
+        self.ctor_kinds: T.Dict[str, T.Set[T.Any]] = {}
         self.nstates = 0
         self._fold: T.Dict[str, T.Any] = {}
         self.fn = ''
@@ -651,6 +652,7 @@ class Analyzer:
             if role == 'tok' and fixed is None:
                 carries = True
                 if v[0] in ('tok', 'tokval'):
+                    self.ctor_kinds.setdefault(cls, set()).add(st.toks[v[1]].kind)
                     self.materialise(v[1], st, node)
                 elif v[0] == 'cur':
                     if st.N:
@@ -665,6 +667,9 @@ class Analyzer:
             cand = [i for i, t in enumerate(st.toks) if not t.done and not t.entry and t.kind == fixed]
             if cand:
                 self.materialise(cand[-1], st, node)
+            elif any(not t.done and not t.entry for t in st.toks):
+                other = [t for t in st.toks if not t.done and not t.entry][-1]
+                self.note_extra('keyword node without keyword', node, f'`{short(node)}` is replayed as `{fixed}` but the token pending here is {self._k(other.kind)}')
             elif any(t.entry and not t.done for t in st.toks):
                 raise Undecided(f'{self.cls}.{self.fn}: `{short(node)}` stands for the keyword `{fixed}` consumed by the caller')
             else:
@@ -752,7 +757,11 @@ class Analyzer:
                     self.materialise(pi, s, e)
                 if o.consumed:
                     if s.N and not (o.consumed == 1 and o.handover):
-                        raise Undecided(f'{self.cls}.{self.fn}: `{short(e)}` consumes several tokens after the next one was pre-attached')
+                        if self.kindof[name] == 'consumer':
+                            raise Undecided(f'{self.cls}.{self.fn}: `{short(e)}` consumes several tokens after the next one was pre-attached')
+                        # a tree method attaches everything it consumes itself: the pre-attached token is attached again
+                        self.note_extra('attached twice', e, f'`{short(e)}` consumes and attaches the token that was already attached before the call')
+                        s.N = False
                     self._clobber(s, e)
                     kind = o.kind
                     if isinstance(kind, tuple) and kind and kind[0] == 'param':
@@ -779,3 +788,17 @@ class Analyzer:
                     val = self.NONE
                 out.append((s, val))
         return out
+
+
+_CACHE: T.Dict[int, Analyzer] = {}
+
+
+def analysed(repo: T.Any) -> Analyzer:
+    """One run of the typestate per repository object (shared by R1 and R4)."""
+    a = _CACHE.get(id(repo))
+    if a is None or a.repo is not repo:
+        a = Analyzer(repo)
+        a.run()
+        _CACHE.clear()
+        _CACHE[id(repo)] = a
+    return a
